@@ -25,7 +25,7 @@ def matrix():
         if m.get('retired'):
             out.append(f"| {d} | {m['property']} | {needs} | *retired* | {m['retired'][:160].replace('|','/')} |"); continue
         det = m.get('detected_by', [])
-        by = ", ".join(x['check'] for x in det) or "**none**"
+        by = ", ".join(x['check'] for x in det) or ("**none** (" + ", ".join(m.get('inconclusive_in', [])) + " exits 2: inconclusive)" if m.get('inconclusive_in') else "**none**")
         msg = (det[0]['first_message'] if det else '').replace('|', '\\|')[:160]
         out.append(f"| {d} | {m['property']} | {needs} | {by} | {msg} |")
     return "\n".join(out)
